@@ -14,7 +14,7 @@ ASSUMPTIONS = ['recipients of one message are distinct', 'fake redis / object st
 EXHAUSTIVE_NOTE = 'per-recipient outcome histories over <=3 rounds, serial schedule (see rule)'
 
 OWN = {'C03'}
-WEIGHTS = {'enqueue': 2, 'release': 12, 'tick': 4, 'advance': 1, 'flush': 1, 'announce': 2, 'restart': 1, 'serve': 8, 'storage': 2}
+WEIGHTS = {'enqueue': 2, 'release': 12, 'tick': 4, 'advance': 1, 'flush': 1, 'announce': 2, 'restart': 1, 'serve': 6, 'storage': 2, 'answer': 4}
 
 
 def nontrivial(labels, stats, cfg, acts):
@@ -23,7 +23,7 @@ def nontrivial(labels, stats, cfg, acts):
 
 
 def backends(ctx):
-    return ['dict', 'disk', 'redis', 'cloud'] if qm_has_backends() else ['dict', 'disk']
+    return ['dict', 'shelf', 'disk', 'redis', 'cloud', 'cloud-mq']
 
 
 def qm_has_backends():
